@@ -128,8 +128,43 @@ package key
 //@   modifies nothing
 //@   ensures [C17:node-order-comparator-compares-the-indices-of-the-groups-nodes] r <==> g.Nodes[i].Index < g.Nodes[j].Index
 
+
+// ---- C17: the group hash commits to the node list (sorted), threshold, genesis time, transition time, public key and id ----
+//@ extern sort.Slice@github.com/drand/drand/v2/common/key(x, less)
+//@   trusted sort.Slice: permutes the elements of the slice it is given in place (with the comparator checked above: by node index), touches nothing else
+//@   modifies elems(asSlice(x, "[]*Node"))
+//@ field hashFunc() (h)
+//@   trusted blake2b-256: a fresh hash state (kind 2562)
+//@   modifies tr(all), hkind(all)
+//@   ensures h != nil && tr(h) == nil && hkind(h) == 2562 && (forall o ref :: o != ref(h) ==> tr(o) == old(tr(o)) && hkind(o) == old(hkind(o)))
+//@ ghost nodeHashOf(ref) bytes
+//@ ghost distPublicHashOf(ref) bytes
+//@ axiom [C17] node-hash-length: forall n ref {nodeHashOf(n)} :: len(nodeHashOf(n)) == 32
+//@ axiom [C17] dist-public-hash-length: forall n ref {distPublicHashOf(n)} :: len(distPublicHashOf(n)) == 32
+//@ extern (*Node).Hash(n) (r)
+//@   trusted hash of index and key of one node, computed on a private hash state (its transcript is not under contract); a function of the node object
+//@   modifies nothing
+//@   ensures r == nodeHashOf(n)
+//@ extern (*DistPublic).Hash(d) (r)
+//@   trusted hash of the coefficients of the distributed public key, computed on a private hash state (transcript not under contract); a function of the object
+//@   modifies nothing
+//@   ensures r == distPublicHashOf(d)
+// What is written into the group hash, in source order, all into the same hash state h: every node of the sorted list, the
+// threshold (4 bytes), the genesis time (8 bytes), the transition time when it is set, the hash of the distributed public key
+// when there is one, the id when it is not the default one. A write that disappears or changes place makes the clauses
+// below unattachable or false; the length clause pins the conditions under which the optional writes happen and that the
+// scan covers the whole list (32 bytes per node and for the public key: trusted output length of blake2b-256).
 //@ func (*Group).Hash(g) (r)
 //@   props C17
+//@   loop 0: invariant [C17:node-hash-scan] -1 <= rangeindex0 && rangeindex0 < len(g.Nodes) && hkind(h) == 2562 && len(tr(h)) == 32 * (rangeindex0 + 1)
+//@   call Write#0: assert [C17:every-node-of-the-sorted-list-is-hashed-into-the-group-hash] arg0 == h && arg1 == nodeHashOf(n) && n == g.Nodes[rangeindex0 + 1]
+//@   call Write#1: assert [C17:the-threshold-is-hashed-into-the-group-hash] ref(arg0) == ref(h) && typeis(arg2, "uint32") && (0 <= g.Threshold && g.Threshold < 4294967296 ==> ref(arg2) == g.Threshold)
+//@   call Write#2: assert [C17:the-genesis-time-is-hashed-into-the-group-hash] ref(arg0) == ref(h) && typeis(arg2, "uint64") && (g.GenesisTime >= 0 ==> ref(arg2) == g.GenesisTime)
+//@   call Write#3: assert [C17:the-transition-time-is-hashed-into-the-group-hash-when-set] ref(arg0) == ref(h) && typeis(arg2, "int64") && ref(arg2) == g.TransitionTime && g.TransitionTime != 0
+//@   call Write#4: assert [C17:the-distributed-public-key-is-hashed-into-the-group-hash] arg0 == h && g.PublicKey != nil && arg1 == distPublicHashOf(g.PublicKey)
+//@   call Write#5: assert [C17:a-non-default-id-is-hashed-into-the-group-hash] arg0 == h && arg1 == strBytes(g.ID) && g.ID != "default" && g.ID != ""
+//@   ensures [C17:the-group-hash-is-the-digest-of-what-was-written] r == digest(2562, tr(h))
+//@   ensures [C17:the-group-hash-covers-every-node-both-fixed-terms-and-exactly-the-optional-terms-that-are-set] len(tr(h)) == 32 * len(g.Nodes) + 12 + ite(g.TransitionTime != 0, 8, 0) + ite(g.PublicKey != nil, 32, 0) + ite(g.ID != "default" && g.ID != "", len(g.ID), 0)
 //@   call Slice#0: assert [C17:the-list-that-is-sorted-is-the-list-the-comparator-reads] asSlice(arg0, "[]*Node") == g.Nodes
 
 // ---- C20: encode side of the group wire form -------------------------------------------------------------------------------
